@@ -502,6 +502,9 @@ def _(c):
     c.ensures(lambda string, result: And_(result[1] >= 1, result[1] <= blen(string), result[0] >= 0), "range")
     c.ensures(lambda string, result: And_(at(string, result[1] - 1) < 128, _all_continuation(string, result[1] - 1), Not_(eq(at(string, 0), 0x80))), "consumes-one-canonical-subidentifier")
     c.ensures(lambda ex, string, result: (b128_facts(ex, string, result[1] - 1), eq(result[0], b128(string, result[1])))[1], "value-is-the-base-128-number")
+    # what callers that reason about encodings need: the octets consumed are the canonical sub-identifier of the value.
+    # Not an obligation of the function body but of the lemma harness der.read_number_canonical (over the clauses above)
+    c.lemma_ensures = [(lambda string, result: beq(slc(string, 0, result[1]), S.subid(result[0])), "der.read_number_canonical")]
 
 
 # ---- encode_number: the base-128 sub-identifier of X.690 8.19.2 in closed form ---------------------------------------------
